@@ -99,17 +99,26 @@ SETUPS = [
     ([('mit', [], False), ('GPL 2.0', ['GNU GPL v2'], False), ('Classpath', [], True)], 'mit or GPL 2.0 with classpath'),
     ([('gpl', [], False)], 'gpl and zz top'),
 ]
+# first calls through the simple tokenizer (no tokenizer is built: these executions are judged by the oracle only), in
+# another letter case than the keys, alone and against a first call through the default tokenizer
+SIMPLE_SETUPS = [
+    ([('MIT', ['MIT License'], False), ('GPL-2.0', ['GNU GPL 2'], False), ('Classpath-2.0', [], True)], 'mit or gpl-2.0 with classpath-2.0',
+     ({'simple': True}, {'simple': True})),
+    ([('MIT', ['MIT License'], False), ('GPL-2.0', ['GNU GPL 2'], False), ('Classpath-2.0', [], True)], 'gpl-2.0 and mit',
+     ({'simple': True, 'validate': True}, {})),
+]
 
 
-def expected_for(T, text):
-    return str(make_licensing(T).parse(text))
+def expected_for(T, text, kw=None):
+    return str(make_licensing(T).parse(text, **(kw or {})))
 
 
-def execute(T, text, schedule, nthreads, ranges, extra=None):
+def execute(T, text, schedule, nthreads, ranges, extra=None, kwargs=None):
     """One controlled execution. Returns (results, log, lines per thread, errors)."""
     le = imp()
     L = make_licensing(T)
-    fns = [(lambda: str(L.parse(text))) for _ in range(nthreads)]
+    kws = list(kwargs or ()) + [{}] * nthreads
+    fns = [(lambda kw=kws[i]: str(L.parse(text, **kw))) for i in range(nthreads)]
     if extra == 'ctor':
         fns[-1] = lambda: str(le.Licensing(['zlib', 'x y']).parse('zlib or x y'))
     lg = Logger(ranges, nthreads)
@@ -146,6 +155,27 @@ def run(rep, tier, seed):
         for _ in range(extra_n // 2):
             cases.append((T, text, want, [(0, rng.randint(1, n0)), (2, rng.randint(1, 200)), (1, rng.randint(1, n0)),
                                           (2, None), (0, None), (1, None)], 3, 'ctor'))
+    # the simple tokenizer's first use: every single-preemption schedule, judged by the oracle alone
+    for T, text, kws in SIMPLE_SETUPS:
+        wants = [expected_for(T, text, kw) for kw in kws]
+        res, log, lines, errs, dl = execute(T, text, [(0, None), (1, None)], 2, ranges, kwargs=kws)
+        for first in (0, 1):
+            other = 1 - first
+            for k in range(1, lines[first] + 1, 1 if tier == 'thorough' else 2):
+                schedule = [(first, k), (other, None), (first, None)]
+                results, log, lines2, errs, dl = execute(T, text, schedule, 2, ranges, kwargs=kws)
+                rep.case((repr(T), text, repr(schedule), repr(kws)), nontrivial=True,
+                         sample={'table': T, 'text': text, 'schedule': schedule, 'kwargs': list(kws)} if k == 1 else None)
+                rep.count('simple_first_use_schedules')
+                bad = 'the execution did not terminate under the scheduler' if dl else None
+                for i, r in enumerate(results):
+                    if errs[i] is not None:
+                        bad = bad or 'thread %d raised %s: %s' % (i, type(errs[i]).__name__, errs[i])
+                    elif r != wants[i]:
+                        bad = bad or 'thread %d returned %r, alone it returns %r' % (i, r, wants[i])
+                if bad:
+                    rep.violations.append({'key': 'schedule', 'kind': 'schedule', 'table': T, 'text': text, 'schedule': schedule,
+                                           'threads': 2, 'extra': None, 'kwargs': list(kws), 'what': bad})
     reqs, metas = [], []
     for T, text, want, schedule, nth, extra in cases:
         results, log, lines, errs, dl = execute(T, text, schedule, nth, ranges, extra)
@@ -199,8 +229,9 @@ def replay(payload):
     instrs, ranges = program()
     T = [(k, a, e) for k, a, e in payload['table']]
     sc = [tuple(x) for x in payload['schedule']]
-    results, log, lines, errs, dl = execute(T, payload['text'], sc, payload['threads'], ranges, payload.get('extra'))
-    want = expected_for(T, payload['text'])
-    ok = all((errs[i] is None and (r == want or (payload.get('extra') == 'ctor' and i == payload['threads'] - 1)))
+    kws = payload.get('kwargs')
+    results, log, lines, errs, dl = execute(T, payload['text'], sc, payload['threads'], ranges, payload.get('extra'), kwargs=kws)
+    wants = [expected_for(T, payload['text'], (kws[i] if kws and i < len(kws) else None)) for i in range(payload['threads'])]
+    ok = all((errs[i] is None and (r == wants[i] or (payload.get('extra') == 'ctor' and i == payload['threads'] - 1)))
              for i, r in enumerate(results))
-    return ok, 'results %r (alone: %r)' % (results, want)
+    return ok, 'results %r (alone: %r)' % (results, wants[0])
